@@ -306,6 +306,7 @@ class Scheduler:
             names.setdefault(self.keyfile[k], f"k{len(names) + 1}")
         self.keyname = names  # real file name -> abstract key name
         self.keyof = {k: names[self.keyfile[k]] for k in exprs}
+        self.planted_names = {}
 
     # -- abstraction of results and directory ---------------------------------------
     def classify_value(self, obj):
@@ -325,15 +326,19 @@ class Scheduler:
             obj = pickle.loads(data)
         except Exception:  # noqa: BLE001
             return ["none", 1, len(data)]
-        cands = [obj] + (list(obj) if isinstance(obj, tuple) else [])
-        for c in reversed(cands):
-            k = self.classify_value(c)
-            if k != "other":
-                # for entries that store (expr, unfolded): identify by the stored expression
-                if isinstance(obj, tuple):
-                    for kk, e in self.exprs.items():
-                        if any(c2 == e and type(c2) is type(e) for c2 in obj if not isinstance(c2, (str, bytes))):
-                            return [kk, self.nchunks, len(data)]
+        # an entry of expression e: the stored (expr, unfolded) pair with expr == e and unfolded == e.doit();
+        # anything else that unpickles is foreign content
+        if isinstance(obj, tuple) and len(obj) == 2:
+            for kk, e in self.exprs.items():
+                try:
+                    if obj[0] == e and type(obj[0]) is type(e) and self.classify_value(obj[1]) == kk:
+                        return [kk, self.nchunks, len(data)]
+                except Exception:  # noqa: BLE001
+                    pass
+        else:
+            # layout of an implementation that stores the unfolded expression only
+            k = self.classify_value(obj)
+            if k != "other" and not self.planted_names.get(os.path.basename(path)):
                 return [k, self.nchunks, len(data)]
         return ["other", self.nchunks, len(data)]
 
@@ -485,6 +490,23 @@ class Scheduler:
                     os.close(p2c_r)
                     kids[p] = {"pid": pid, "rfd": c2p_r, "buf": b"", "w": os.fdopen(p2c_w, "w"), "pending": None}
                     log("Call", p, e=e)
+                elif kind == "plant":
+                    # pre-existing content of the key file of expression st[1]
+                    e, what = st[2], st[3]
+                    fname = self.keyfile[e]
+                    full = pickle.dumps((self.exprs[e], self.doits[e]))
+                    data = {"garbage": b"\x00not a pickle\xff" * 3, "truncated": full[: len(full) // 2], "empty-ish": full[:1],
+                            "foreign": pickle.dumps({"answer": 42}), "oldformat": pickle.dumps(self.doits[e]),
+                            "wrongpair": pickle.dumps((self.exprs[e], 1))}[what]
+                    with open(os.path.join(d, fname), "wb") as f:
+                        f.write(data)
+                    self.planted_names[fname] = True
+                    try:
+                        pickle.loads(data)
+                        complete = 1
+                    except Exception:  # noqa: BLE001
+                        complete = 0
+                    log("Plant", p, name=self.keyname[fname], what=what, complete=complete)
                 elif kind == "step":
                     if p in kids:
                         perform(p, st[2] if len(st) > 2 else "")
@@ -515,6 +537,7 @@ class Scheduler:
         finally:
             for p in list(kids):
                 reap(p)
+            self.planted_names = {}
             shutil.rmtree(d, ignore_errors=True)
         return events
 
